@@ -412,6 +412,19 @@ def scanner_sibling_rules(ctx, rule_blank, rule_line):
                 if not ok:
                     viol(rule_blank, f"blank-skip:{fname}:{S.unparse(n)}", f"in {fname} the blank test `{S.unparse(n)}` guards an `if`, while every other blank-skipping site is a loop: only one blank is skipped, so extra spaces or tabs end up in the token text / break the directive", f"CLexer.{fname}", holder)
     find_results_checked(ctx, rule_line)
+    # a loop test `text[a:b] in " \t"` is a SUBSTRING test: the empty slice at the end of the text is "in" every string, so the loop never ends there
+    for fname, fn in lx.methods("CLexer").items():
+        for lp in ast.walk(fn):
+            if not isinstance(lp, ast.While):
+                continue
+            for cmp_ in ast.walk(lp.test):
+                if isinstance(cmp_, ast.Compare) and len(cmp_.ops) == 1 and isinstance(cmp_.ops[0], ast.In) and isinstance(cmp_.left, ast.Subscript) and isinstance(cmp_.left.slice, ast.Slice) \
+                        and isinstance(cmp_.comparators[0], ast.Constant) and isinstance(cmp_.comparators[0].value, str):
+                    bounded = any(isinstance(c2, ast.Compare) and len(c2.ops) == 1 and isinstance(c2.ops[0], (ast.Lt, ast.LtE, ast.Gt, ast.GtE, ast.NotEq)) for c2 in ast.walk(lp.test))
+                    ctx.oblige(rule_blank, f"{fname}: slice membership test at line {cmp_.lineno} is bounded", bounded)
+                    if not bounded:
+                        viol(rule_blank, f"empty-slice-loop:{fname}", f"in {fname} the loop test `{S.unparse(lp.test)[:70]}` asks whether a SLICE of the text is a substring of {cmp_.comparators[0].value!r}: at the end of the text the slice is empty, "
+                             "and the empty string is a substring of every string, so the loop never terminates when the directive is the last thing in the input", f"CLexer.{fname}", lp)
     skippers = _blank_skippers(lx)
     for fname, fn in lx.methods("CLexer").items():
         for n in ast.walk(fn):
